@@ -216,6 +216,24 @@ CHECKS = {
         "(thorough).",
         "DESIGN.md 5/C12",
     ),
+    "C08": (
+        "exploration",
+        "property-based differential testing: expansion-grammar pages with "
+        "planted #invoke calls against the reference interpreter extended by "
+        "the frame rules; metamorphic comparison of frame:preprocess / "
+        "expandTemplate / callParserFunction with expand() of the equivalent "
+        "wikitext",
+        "Generated pages and template libraries with echo-module invocations "
+        "at wrapper depth 0-2 must expand to exactly what the reference "
+        "interpreter predicts for frame.args, the parent title and the parent "
+        "arguments; generated modules calling the three frame methods must "
+        "return what expand() returns for the equivalent wikitext. Sampled "
+        "search, not exhaustive.",
+        "Trusts refs/transclude.py, the echo module and the Lua stand-in "
+        "library; arguments handed to callParserFunction carry no edge "
+        "blanks (no equivalent wikitext exists for them).",
+        "DESIGN.md 5/C08",
+    ),
 }
 
 NOT_YET = "check not built yet in this round (planned in DESIGN.md section 5)"
